@@ -203,7 +203,17 @@ class Enumerator:
             return None
         refs = {}
         idx = None
-        for s in blocks[0]["st"]:
+        negated = False
+        sts = list(blocks[0]["st"])
+        # `|_| !flag`: the last statement negates a copy of the captured flag
+        if sts and sts[-1]["k"] == "assign" and sts[-1]["dst"]["l"] == 0 and sts[-1]["rv"]["k"] == "unop" and \
+                sts[-1]["rv"]["op"] == "Not" and not is_const(sts[-1]["rv"]["a"]) and not op_place(sts[-1]["rv"]["a"]).get("p"):
+            tmp = op_place(sts[-1]["rv"]["a"])["l"]
+            sts = sts[:-1]
+            # rewrite `tmp = X` as `_0 = X`
+            sts = [dict(x, dst={"l": 0}) if (x["k"] == "assign" and x["dst"]["l"] == tmp and not x["dst"].get("p")) else x for x in sts]
+            negated = True
+        for s in sts:
             if s["k"] != "assign" or s["rv"]["k"] != "use" or is_const(s["rv"]["o"]):
                 return None
             pl = op_place(s["rv"]["o"])
@@ -232,7 +242,13 @@ class Enumerator:
                     v = st.vals.get(s["rv"]["p"]["l"])
                     break
         if v and v[0] == "const" and isinstance(v[1], bool):
-            return v[1]
+            return (not v[1]) if negated else v[1]
+        if v and v[0] in ("callres", "notcallres"):
+            neg2 = negated != (v[0] == "notcallres")
+            dec = st.decisions.get(v[1])
+            if dec is not None:
+                return (not dec) if neg2 else dec
+            return ("undecided", v[1], neg2)
         return None
 
     # ---- abstract values -------------------------------------------------
@@ -401,6 +417,26 @@ class Enumerator:
                 if re.search(r"Option::<.*>::filter$", cn) and len(t["args"]) == 2:
                     # `opt.filter(|_| flag)`: a closure that only returns a captured boolean known on this path
                     cbv = self._closure_const_bool(st, bi, t["args"][1])
+                    if isinstance(cbv, tuple) and cbv[0] == "undecided" and t.get("t") is not None and not t["dst"].get("p"):
+                        # the flag is the still undecided result of an earlier call (`let is_root = a == b;`): decide it here,
+                        # one continuation per outcome
+                        _, cbk, cneg = cbv
+                        s2 = st.clone()
+                        s2.decisions[cbk] = True
+                        s2.hist.append((f"dec:{cbk}", True))
+                        st.decisions[cbk] = False
+                        st.hist.append((f"dec:{cbk}", False))
+                        for sx, outcome in ((s2, True), (st, False)):
+                            flag = (not outcome) if cneg else outcome
+                            if not flag:
+                                sx.disc[f"call:{bi}"] = "None"
+                                sx.hist.append((f"call:{bi}", "None"))
+                            sx.vals[t["dst"]["l"]] = ("callres", bi)
+                        self._walk(t["t"], s2, out)
+                        bi = t["t"]
+                        continue
+                    if isinstance(cbv, tuple):
+                        cbv = None
                     av = self.val_of(st, t["args"][0]) if not is_const(t["args"][0]) else None
                     side_in = None
                     if av and av[0] in ("agg", "variant") and av[2] in ("Some", "None"):
